@@ -310,4 +310,8 @@ def gen_specs(chk: common.Check, nseq: int, nconc: int, with_modules: bool = Tru
         for pol in ({'kind': 'all', 'command': 'next'}, {'kind': 'all', 'command': 'continue'}):
             specs.append({'source': src, 'policy': pol, 'trace_threads': True, 'trace_modules': i % 2 == 1, 'kind': 'sequential-tasks', 'owners': owners,
                           'decoys': False, 'run_no': 6, 'timeout': 40})
+    src, owners = progs.cancelled_tasks(random.Random(rng.randrange(1 << 30)))
+    for pol in ({'kind': 'all', 'command': 'next'}, {'kind': 'all', 'command': 'continue'}, {'kind': 'all', 'command': 'step'}):
+        specs.append({'source': src, 'policy': pol, 'trace_threads': True, 'trace_modules': False, 'kind': 'cancelled-tasks', 'owners': owners,
+                      'decoys': False, 'run_no': 7, 'timeout': 40})
     return specs
